@@ -138,14 +138,21 @@ def run_apply(case, R):
     T = int(rng.integers(1, 20))
     w = gen.cnormal(rng, (*lead, D))
     x = gen.cnormal(rng, (*lead, D, T))
+    variant = ['complex', 'complex', 'real-x', 'real-w', 'c64-x'][case['rs'][-1] % 5]
+    if variant == 'real-x':
+        x = x.real.copy()                      # a real-valued observation (time-domain-like / DC bin) with a complex vector
+    elif variant == 'real-w':
+        w = w.real.copy()
+    elif variant == 'c64-x':
+        x = x.astype(np.complex64)
     wb, xb = w.copy(), x.copy()
-    got = apply_beamforming_vector(w, x)
+    got = np.asarray(apply_beamforming_vector(w, x))
     ref = np.empty((*lead, T), dtype=complex)
     for idx in np.ndindex(*lead):
         for t in range(T):
             ref[idx][t] = np.vdot(w[idx], x[idx][:, t])
-    dv = float(np.abs(got - ref).max())
-    R.check('C13.apply', got.shape == ref.shape and dv <= 1e-12 * (1 + float(np.abs(ref).max())), 'apply/value', f'apply_beamforming_vector deviates from w^H x by {dv:.3e}', lead=list(lead), D=D)
+    dv = float(np.abs(got - ref).max()) if got.shape == ref.shape else np.inf
+    R.check('C13.apply', got.shape == ref.shape and dv <= (1e-12 if variant != 'c64-x' else 1e-5) * (1 + float(np.abs(ref).max())), 'apply/value', f'apply_beamforming_vector deviates from w^H x by {dv:.3e}', lead=list(lead), D=D, variant=variant)
     R.check('C13.apply', np.array_equal(w, wb) and np.array_equal(x, xb), 'apply/purity', 'arguments modified')
     R.mark_nontrivial('apply', D, list(lead), T > 1)
 
@@ -285,6 +292,9 @@ def run_singular_stack(case, R):
     lead = tuple(case['lead']) or (2,)
     Px, Pn = psds(rng, D, (*lead, F), rank=int(rng.integers(1, D + 1)))
     Pn = Pn.copy()
+    if case['rs'][-1] % 2 == 0:
+        # stationary / white noise: the same regular noise PSD in every bin and problem (only the targets differ)
+        Pn[...] = Pn[(0,) * (len(lead) + 1)] if rng.uniform() < 0.5 else np.eye(D) * float(10 ** rng.uniform(-2, 2))
     idx = tuple(int(rng.integers(n)) for n in (*lead, F))
     Pn[idx] = 0
     if rng.uniform() < 0.5:
@@ -319,6 +329,8 @@ def run_singular(case, R):
     real_noise = bool(rng.uniform() < 0.3)
     if real_noise:
         Pn = np.ascontiguousarray(gen.hpd(rng, D, cond=100.0, lead=(F,), real=True))        # float64 noise PSD, complex target PSD
+    if not real_noise and case['rs'][-1] % 2 == 0:
+        Pn = np.broadcast_to(Pn[0], Pn.shape).copy()          # stationary noise: one regular PSD for all bins
     sing = rng.uniform(size=F) < 0.35
     sing[int(rng.integers(F))] = True
     sing[int(rng.integers(F))] = False
